@@ -260,7 +260,11 @@ func lookupHostFn(cfg *config.Config, notFound gkm.Counter) func(string) *route.
 
 // Returns a matcher function compatible with tcpproxy Matcher from github.com/inetaf/tcpproxy
 func lookupHostMatcher(cfg *config.Config) func(context.Context, string) bool {
-	pick := route.Picker[cfg.Proxy.Strategy]
+	// The matcher only classifies the host. It must not take a turn of
+	// the configured strategy: the proxy makes its own lookup for the same
+	// connection, and with two lookups per connection round robin would
+	// never reach every other target.
+	pick := func(r *route.Route) *route.Target { return r.Targets[0] }
 	return func(ctx context.Context, host string) bool {
 		t := route.GetTable().LookupHost(host, pick)
 		if t == nil {
